@@ -122,6 +122,14 @@ Theorem C07_shuffle_invariant :
 Proof. exact validate_shuffle_invariant. Qed.
 Print Assumptions C07_shuffle_invariant.
 
+(* times are exact integers (microseconds): onsets late in a recording that differ by 10 us -- equal in float32 --
+   are still "distinct"; the out-of-order file and its reversal report the same content-labelled issues *)
+Example C07_shuffle_close_onsets :
+  exists l l', w_validate (cfg0 false true true) t_close = Ok l /\
+               w_validate (cfg0 false true true) (rev t_close) = Ok l' /\
+               Permutation (idents nat 2 t_close l) (idents nat 2 (rev t_close) l').
+Proof. exact shuffle_close_onsets. Qed.
+
 (* without the hypothesis on the onsets (repaired mask): the string-level payload of every row with error-free
    cells follows the row to its new position *)
 Theorem C07_shuffle_rows_follow :
